@@ -263,7 +263,10 @@ let register_all register =
   register "histC07" (s_hist Judge.judge_c07);
   register "histC04" (s_hist Judge.judge_c04);
   register "histC05" (s_hist Judge.judge_c05);
-  List.iter (fun n -> register ("hist" ^ n) (s_hist no_judge)) ["C02"; "C06"; "C08"; "C09"];
+  register "histC02" (s_hist Judge.judge_c02);
+  register "histC06" (s_hist Judge.judge_c06);
+  register "histC08" (s_hist Judge.judge_c08);
+  register "histC09" (s_hist Judge.judge_c09);
   register "phy" s_phy;
   register "phyenc" s_phyenc;
   register "maccmd" s_maccmd;
